@@ -26,14 +26,18 @@ Record upl := { u_dur : N; u_ok : bool; u_race : N }.
 Definition default_upl : upl := {| u_dur := 0; u_ok := true; u_race := 0 |}.
 
 Record timeline := {
-  writes : list N;       (* instants of database writes made by clients *)
+  writes : list (N * bool);
+                         (* instants of client calls on the database, with "the database file was
+                            replaced": true = a successful write; false = a write attempt whose save
+                            FAILED, or a read (list/get/info) - generation and file unchanged *)
   script : list upl;     (* the store's answers, by upload position; then [default_upl] *)
   cancel : N             (* the instant the context is cancelled *)
 }.
 
 (* one upload attempt: start instant, generation of the file read (= the body), whether the
    store acknowledged it, instant at which PutObject returned *)
-Record attempt := { a_t : N; a_gen : N; a_ok : bool; a_end : N }.
+Record attempt := { a_t : N; a_gen : N; a_ok : bool; a_end : N; a_race : N }.
+   (* a_race: database writes made on the store's side while this request was handled *)
 
 (* one loop iteration: wake-up instant, generation read, the upload if one was made *)
 Record iter := { i_t : N; i_gen : N; i_up : option attempt }.
@@ -59,7 +63,7 @@ Definition iter_step (ws : list N) (c t last r : N) (sc : list upl)
     let aborted := c <? t + d in                                (* cancelled while in flight *)
     let ok := u_ok e && (u_dur e <=? upload_timeout) && negb aborted in
     let t1 := if aborted then c else t + d in
-    (Some {| a_t := t; a_gen := g; a_ok := ok; a_end := t1 |},
+    (Some {| a_t := t; a_gen := g; a_ok := ok; a_end := t1; a_race := u_race e |},
      t1, (if ok then g else last), r + u_race e, tl sc).
 
 Fixpoint loop (fuel : nat) (ws : list N) (c : N) (t last r : N) (sc : list upl) : option (list iter * N) :=
@@ -77,9 +81,12 @@ Fixpoint loop (fuel : nat) (ws : list N) (c : N) (t last r : N) (sc : list upl) 
 
 Definition fuel_for (c : N) : nat := S (S (N.to_nat (c / period))).
 
+(* the instants at which the database file really changed: only these move the generation *)
+Definition ok_writes (tl : timeline) : list N := map fst (filter snd (writes tl)).
+
 (* the run of the backup task: its iterations and the instant it returns *)
 Definition backup_run (tl : timeline) : option (list iter * N) :=
-  loop (fuel_for (cancel tl)) (writes tl) (cancel tl) 0 0 0 (script tl).
+  loop (fuel_for (cancel tl)) (ok_writes tl) (cancel tl) 0 0 0 (script tl).
 
 (* the generation covered by the last acknowledged upload (lastWriteGen), from the log *)
 Definition lastok_step (l : N) (it : iter) : N :=
@@ -93,6 +100,14 @@ Definition end_of (it : iter) : N := match i_up it with Some a => a_end a | None
 
 Definition attempts (its : list iter) : list attempt :=
   flat_map (fun it => match i_up it with Some a => [a] | None => [] end) its.
+
+(* counting attempts: acknowledged, not acknowledged, store-side writes *)
+Fixpoint n_acked (l : list attempt) : N :=
+  match l with [] => 0 | a :: l' => (if a_ok a then 1 else 0) + n_acked l' end.
+Fixpoint n_failed (l : list attempt) : N :=
+  match l with [] => 0 | a :: l' => (if a_ok a then 0 else 1) + n_failed l' end.
+Fixpoint n_races (l : list attempt) : N :=
+  match l with [] => 0 | a :: l' => a_race a + n_races l' end.
 
 (* ---- monitors on an observed upload log (start instant, generation of the body, acknowledged) ---- *)
 Definition obs_upload := (N * N * bool)%type.
@@ -118,3 +133,14 @@ Definition mon_snapshot (ws : list N) (racing : N) (l : list obs_upload) : bool 
 (* the first upload happens at start-up *)
 Definition mon_first (l : list obs_upload) : bool :=
   match l with (0, _, _) :: _ => true | _ => false end.
+
+(* byte identity: two consecutive acknowledged uploads never carry identical bytes (an upload
+   of an unchanged file is a violation whatever the generation counter says).  The log here
+   is (acknowledged, identifier of the body's bytes), identifiers given by exact comparison. *)
+Fixpoint mon_bytes (last : option N) (l : list (bool * N)) : bool :=
+  match l with
+  | [] => true
+  | (ok, b) :: l' =>
+      if ok then match last with Some b0 => negb (b =? b0) | None => true end && mon_bytes (Some b) l'
+      else mon_bytes last l'
+  end.
